@@ -48,7 +48,7 @@ func main() {
 	repo := flag.String("repo", "/repo", "")
 	verif := flag.String("verif", "/verif", "")
 	out := flag.String("out", "/verif/build/ovl", "")
-	timepkgs := flag.String("timepkgs", "replica,controller,replica/client,backend/remote,sync,controller/client,app,replica/rest,controller/rest,sync/agent", "")
+	timepkgs := flag.String("timepkgs", "replica,controller,replica/client,backend/remote,sync,controller/client,app,replica/rest,controller/rest,sync/agent,rpc:sleeponly", "")
 	flag.Parse()
 
 	replace := map[string]string{}
@@ -60,6 +60,11 @@ func main() {
 		pkg = strings.TrimSpace(pkg)
 		if pkg == "" {
 			continue
+		}
+		shim := "vtime"
+		if strings.HasSuffix(pkg, ":sleeponly") {
+			// only Sleep is scaled (package rpc: its deadlines must stay real)
+			pkg, shim = strings.TrimSuffix(pkg, ":sleeponly"), "vtimesl"
 		}
 		dir := filepath.Join(*repo, pkg)
 		ents, err := os.ReadDir(dir)
@@ -89,7 +94,7 @@ func main() {
 				}
 				off := fset.Position(im.Path.Pos()).Offset
 				end := fset.Position(im.Path.End()).Offset
-				ns := string(src[:off]) + `time "github.com/openebs/jiva/verifshim/vtime"` + string(src[end:])
+				ns := string(src[:off]) + `time "github.com/openebs/jiva/verifshim/` + shim + `"` + string(src[end:])
 				dst := filepath.Join(*out, pkg, n)
 				os.MkdirAll(filepath.Dir(dst), 0755)
 				if err := writeIfChanged(dst, []byte(ns)); err != nil {
@@ -102,7 +107,7 @@ func main() {
 	}
 	nosync := true
 	// virtual shim packages
-	for _, sp := range []string{"vtime"} {
+	for _, sp := range []string{"vtime", "vtimesl"} {
 		ents, err := os.ReadDir(filepath.Join(*verif, "shim", sp))
 		if err != nil {
 			die("%v", err)
